@@ -547,6 +547,21 @@ def run(ctx, repo, tier):
                     witness=f"{[src(x)[:40] for x in srt] + [src(g.ifs[0])[:40] for g in filt]}")
     elif gen_comp:
         ctx.ok("ORD", "C10.collect", "frames are collected from the generator by order-preserving, unfiltered comprehensions", gp.where)
+    elif [n for n in ast.walk(gp.node) if isinstance(n, ast.For) and "generate_pseudotrajectory" in src(n.iter)]:
+        # explicit collection loop:  for _, u in self.generate_pseudotrajectory(): frames.append(...)
+        fl_ = [n for n in ast.walk(gp.node) if isinstance(n, ast.For) and "generate_pseudotrajectory" in src(n.iter)][0]
+        skips_ = [n for n in ast.walk(fl_) if isinstance(n, (ast.If, ast.Continue, ast.Break, ast.IfExp)) and n is not fl_]
+        apps_ = [st_ for st_ in fl_.body if isinstance(st_, ast.Expr) and isinstance(st_.value, ast.Call) and isinstance(st_.value.func, ast.Attribute) and
+                 st_.value.func.attr == "append"]
+        stores_ = [st_ for st_ in fl_.body if isinstance(st_, ast.Assign) and isinstance(st_.targets[0], ast.Subscript)]
+        ins_ = [n for n in ast.walk(fl_) if isinstance(n, ast.Call) and isinstance(n.func, ast.Attribute) and n.func.attr in ("insert", "appendleft")]
+        if skips_ or ins_:
+            ctx.violate("ORD", "C10.collect", "frames are filtered or re-ordered when they are collected from the generator", gp.where,
+                        src((skips_ + ins_)[0])[:80], witness="conditional / front insertion inside the collection loop")
+        elif apps_ or stores_:
+            ctx.ok("ORD", "C10.collect", "frames are collected from the generator by an unconditional append / indexed store per frame", gp.where)
+        else:
+            ctx.inconclusive("ORD", "C10.collect", "collection loop over the generator not recognised", gp.where)
     else:
         ctx.inconclusive("ORD", "C10.collect", "collection of the frames from the generator not recognised", gp.where)
     guards = [n for n in ast.walk(gp.node) if isinstance(n, ast.If) and "self.pt" in src(n.test)]
